@@ -649,6 +649,11 @@ class SimKernel:
             if p is not None and not p.zombie:
                 p.utime += ev.get("utime", 0)
                 p.stime += ev.get("stime", 0)
+                # time of reaped children and block-I/O delay: published in
+                # the same record, not CPU the process itself used
+                p.cutime += ev.get("cutime", 0)
+                p.cstime += ev.get("cstime", 0)
+                p.blkio += ev.get("blkio", 0)
                 self.bump()
         elif kind == "close_fd":
             p = self.procs.get(ev["pid"])
